@@ -138,4 +138,34 @@ def handle(c):
             out['cli'] = res
         except BaseException as e:   # noqa
             out['cli'] = exc_class(e)
+    if c.get('argv'):
+        # the same run through the real argument parser, every option on the command line (CE2 and CE3 layouts)
+        import _argv_route as AR
+        out2 = os.path.join(d, 'circ_argv.gvf')
+        ref = AR.reference_args(c, g, a, p, d, with_genome=False)
+        if isinstance(ref, dict):
+            out['cli_argv'] = ref
+        else:
+            argv = ['parseCIRCexplorer', '-i', str(table), '-o', out2, '--source', 'circRNA', '--debug-level', 'INFO', '--quiet',
+                    '--min-read-number', str(th['reads']), '--intron-start-range=%d,%d' % tuple(c['sr']),
+                    '--intron-end-range=%d,%d' % tuple(c['er'])] + ref
+            if ce3:
+                argv += ['--circexplorer3']
+                if th.get('fpb') is not None:
+                    argv += ['--min-fpb-circ', th['fpb']]
+                if th.get('score') is not None:
+                    argv += ['--min-circ-score', th['score']]
+            if c.get('skip_failed'):
+                argv += ['--skip-failed']
+            out['cli_argv'] = AR.run(argv, out2, restore_handlers=[_CAP])
+            # hand-built Namespace with the same options (incl. --skip-failed when flagged)
+            import copy
+            args2 = copy.copy(args)
+            args2.skip_failed = bool(c.get('skip_failed'))
+            args2.output_path = Path(d) / 'circ_hand.gvf'
+            try:
+                cli.parse_circexplorer(args2)
+                out['cli_hand'] = AR.body(str(args2.output_path))
+            except BaseException as e:   # noqa
+                out['cli_hand'] = exc_class(e)
     return out
